@@ -66,7 +66,17 @@ pub fn gen_corrupt(seed: u64) -> Plan {
     for _ in 0..n_mut {
         let es = *rng.pick(&entry_starts);
         let unit = rng.below(g.blocks_per_file) * g.block;
-        let (target, action, off, len, arg): (String, &str, u64, u64, u64) = match rng.below(20) {
+        // header of the first entry of any block, or of an entry of the first block
+        let base = if rng.chance(0.5) { unit } else { es };
+        let file_len = g.block * g.blocks_per_file;
+        // values a damaged length / offset field is most dangerous with
+        let boundary = [0u64, 1, 255, 256, g.block - 1, g.block, g.block + 1, 2 * g.block, 4 * g.block, file_len - unit - 1, file_len - unit, file_len, file_len + 1, 1 << 29, u32::MAX as u64, 1 << 40, u64::MAX];
+        let (target, action, off, len, arg): (String, &str, u64, u64, u64) = match rng.below(25) {
+            // a field of the entry header overwritten with a boundary value (8-byte slots of the metadata region, or unaligned)
+            20 | 21 => (format!("wal:{}", rng.below(3)), "setval", base + 2 + 8 * rng.below(10), 8, *rng.pick(&boundary)),
+            22 => (format!("wal:{}", rng.below(3)), "setval", base + 2 + rng.below(80), *rng.pick(&[4u64, 8]), *rng.pick(&boundary)),
+            23 => (format!("wal:{}", rng.below(3)), "setval", base, 2, *rng.pick(&[0u64, 1, 64, 255, 256, 0xFFFF])),
+            24 => (format!("wal:{}", rng.below(3)), "flip", base + 2 + rng.below(80), 0, rng.below(8)),
             // entry header: length prefix, rkyv metadata region
             0 => (format!("wal:{}", rng.below(3)), "flip", es + rng.below(2), 0, rng.below(8)),
             1 | 2 => (format!("wal:{}", rng.below(3)), "flip", es + 2 + rng.below(62), 0, rng.below(8)),
